@@ -13,6 +13,7 @@ func runC13(c *Ctx) {
 		"Table.write byte for byte) and one third with Snappy compression (reader side only: the model decodes the compressed blocks); " +
 		"hand-built, encoder-made and damaged Snappy block streams are decoded by snappy.Decode and by the model; Find / filtered Find / FindKey / Get / OffsetOf / full and range " +
 		"iteration on table.Reader (with and without block cache + buffer pool) are compared with the model run on the same bytes; small tables get " +
+		"random walks (First/Last/Seek/Next/Prev, past both ends) on the real table.blockIter of the index block and of data blocks, whole and sliced with a util.Range, are compared with the byte-level blockIter model; " +
 		"every (or sampled) single-byte alteration inside checksummed blocks: answers must be original pairs or corruption, never a panic; " +
 		"Go-only oracles: round trip, backward iteration, monotone offsets, cached = uncached. Non-trivial = multi-block or filtered table; distinct by case seed."
 	sz := wpc13.DefaultSizes()
@@ -31,4 +32,7 @@ func runC13(c *Ctx) {
 	c.Res.CountN("ops", "snappy-streams-rejected", st.SnappyBad)
 	c.Res.CountN("ops", "read-ops", st.ReadOps)
 	c.Res.CountN("ops", "damage-checks", st.DamageOps)
+	c.Res.CountN("ops", "blockiter-walks", st.BiterWalks)
+	c.Res.CountN("ops", "blockiter-walks-sliced", st.BiterSliced)
+	c.Res.CountN("ops", "blockiter-moves", st.BiterMoves)
 }
